@@ -80,8 +80,8 @@ META = dict(
          "(total lent no longer matches). Depth round 2: histories go on through partial fills and the closing bid of the second-generation auction "
          "(the borrow disappears, the lend stays debited, identities hold throughout); the LendIds / BorrowIds lists of every pool-asset record are exactly "
          "the ids of its live positions, ascending (binary-search removal proved exact); the reserve module balance equals genesis plus recorded inflows "
-         "minus recorded outflows for every asset over all histories without block-hook runs; the store migration 2->3 keeps all books. Findings D35 (block "
-         "hook sweeps pool funds into the reserve unrecorded and is dead afterwards) and D36 (migration leaks flags between records) are carried as "
+         "minus recorded outflows for every asset over all histories without block-hook runs; the store migration 2->3 keeps all books. Findings D36 (block "
+         "hook sweeps pool funds into the reserve unrecorded and is dead afterwards) and D37 (migration leaks flags between records) are carried as "
          "counterexamples and known findings. A second one (BorrowAsset accepted a pair registered for another asset of the pool, valuing the pledged "
          "cTokens at the wrong price) was found by this check and is repaired in the tree; the model carries the guard and a regression example.",
     note="Trusted: Lean kernel, the Dec model (differentially tested), the hand-written model as far as the correspondence run exercises it. "
